@@ -178,6 +178,8 @@ class Gen:
         k = self.r.randint(0, 5)
         if k == 0:
             return self.selset()          # shorthand
+        if k == 1:
+            return ["query"] + self.selset()   # explicit but shorthand-eligible: must keep `query` unless first
         op = self.ch(["query", "query", "mutation", "subscription"])
         out = [op]
         if self.p(0.6):
@@ -369,6 +371,11 @@ FIXED = [
     "extend type T implements A @d { \"d\" f(a: Int): Int @d }", "extend interface I implements J",
     "extend interface I @d { f: Int }", "extend union U @d", "extend union U = A | B", "extend union U @d = | A",
     "extend enum E @d", "extend enum E { A \"d\" B @d }", "extend input I @d", "extend input I { a: Int = 1 @d }",
+    # an anonymous query after a definition that would swallow a following `{`
+    "type T query { a }", "interface I query { a }", "enum E query { a }", "input I query { a }",
+    "extend schema @d query { a }", "extend type T @d query { a }", "type T implements I query { a }",
+    "extend interface I implements J query{a}", "extend enum E @d query{a}", "extend input I @d query{a}",
+    "{a} type T query {b}", "type T @d query { a } query { b }", "\"d\" enum E @d query { a }",
     "type T { a: Int } {a}", "type T {a}", "type T @d {a: Int} query {a} {b}", "scalar S query { a }",
     "\"desc with \\\"quotes\\\" and \\\\\" type T { f: Int }", "\"\" type T", "\" lead\" type T", "\"trail \" type T",
     "\"" + "x" * 80 + "\" type T { \"" + "y" * 80 + "\" f(\"" + "z" * 80 + "\" a: Int): Int }",
@@ -426,6 +433,8 @@ def stage1(impl, sources):
         elif o.startswith("errors "):
             partial.append(h + " " + o.split(" ", 2)[2])
         # a parser panic / timeout is another property's business (C04); not a C08 case
+    ok.sort(key=lambda c: (len(c), c))          # shortest first: the first reported violations are small
+    partial.sort(key=lambda c: (len(c), c))
     return ok, partial
 
 
@@ -433,7 +442,7 @@ def run(ctx):
     props = check_props(ctx.pid)
     model = build_model()
     impl = build_impl()
-    n = 2500 if ctx.tier == "quick" else 40000
+    n = 6000 if ctx.tier == "quick" else 60000
     g = Gen(ctx.rng)
     generated = [g.document() for _ in range(n)]
     fixed = list(FIXED)
@@ -480,6 +489,14 @@ def run(ctx):
     for c, i, m in rows[:: max(1, len(rows) // 4)]:
         parts = i.split(" ")
         ctx.sample({"source": describe(c)[:300], "no_indent": unhexs(parts[2])[:300] if len(parts) > 2 else i}, limit=4)
+    # model-only: do the parser's error-free ASTs satisfy the hypothesis wfd of C08_tokens_wf /
+    # C08_roundtrip_partial?  (a "bad" line would contradict the theorems: machinery error)
+    st = run_family(model, "c08_selftest", ok)
+    if any(x == "bad" or x.startswith("model-") for x in st):
+        raise MachineryError("c08_selftest: the token view disagrees with the printer model on "
+                             + describe(ok[[x == "bad" or x.startswith("model-") for x in st].index(True)]))
+    fam["asts_satisfying_wfd"] = sum(1 for x in st if x == "ok wf")
+    fam["asts_not_satisfying_wfd"] = sum(1 for x in st if x == "ok notwf")
     # the model of the serializer is also compared on partial ASTs of documents with syntax errors
     # (no oracle: the property speaks of error-free documents only)
     ctx.correspond(impl, model, "c08_print_partial", partial, nontrivial=lambda c, o: o.startswith("ok"),
@@ -499,6 +516,9 @@ def run(ctx):
         "the one the real parser produced (harness family ast_dump); the round trip itself is decided by the oracle "
         "on the implementation",
         "indent prefixes are whitespace (space/tab) strings; the six configurations of DESIGN.md section C08",
+        "theorems (a)-(d) are about the printer model only; that a string token's text decodes to its value is "
+        "C09's statement; wfd (valid names, literal-syntax numbers) is a hypothesis of C08_tokens_wf, checked on "
+        "every parser-produced AST of the run (asts_satisfying_wfd)",
     ]
     return ctx.finish(props)
 
